@@ -76,7 +76,7 @@ pub fn generate(g: &mut Gen, thorough: bool) {
         // the false origin is the image of the projection centre
         for (def, clat) in [
             (format!("merc {tail}"), 0.0), (format!("merc lat_0={lat_c} {tail}"), lat_c), (format!("tmerc lat_0={lat_0} {tail}"), lat_0), (format!("btmerc lat_0={lat_0} {tail}"), lat_0),
-            (format!("lcc lat_1={p1} lat_0={} {tail}", p1 - s * 4.0), p1 - s * 4.0), (format!("lcc lat_1={p1} {tail}"), p1),
+            (format!("lcc lat_1={p1} lat_0={} {tail}", p1 - s * 4.0), p1 - s * 4.0), (format!("lcc lat_1={p1} {tail}"), p1), (format!("lcc lat_1={p1} lat_0=0 {tail}"), 0.0), (format!("lcc lat_1={p1} lat_2={p2} lat_0=0 {tail}"), 0.0),
             (format!("laea lat_0={lat_c} lon_0={lon_0} x_0={x_0} y_0={y_0} ellps={ellps}"), lat_c), (format!("somerc lat_0={lat_c} {tail}"), lat_c),
             // every aspect of laea has its centre: both poles, the equator
             (format!("laea lat_0=90 lon_0={lon_0} x_0={x_0} y_0={y_0} ellps={ellps}"), 90.0), (format!("laea lat_0=-90 lon_0={lon_0} x_0={x_0} y_0={y_0} ellps={ellps}"), -90.0),
